@@ -720,6 +720,21 @@ func checkDirectStarts(s *taskState, p *TaskPlan, rc *simkit.RunCtx, execWait ti
 				rc.Probe("overlap-with-direct-start")
 				continue
 			}
+			// A direct start that the schedule handler decided on before the task's previous execution was committed
+			// is carried out as soon as that execution has finished (the handler waits for the task lock meanwhile):
+			// the listed extra-run finding. Such a back-to-back re-execution is not a start that came through the queue.
+			backToBack := func(e *tExec) bool {
+				for _, x := range s.execs {
+					if x.Task == e.Task && x != e && x.Ended && x.EndSeq < e.BeginSeq && e.BeginT-x.EndT <= time.Millisecond {
+						return true
+					}
+				}
+				return false
+			}
+			if backToBack(a) || backToBack(b) {
+				rc.Probe("overlap-after-back-to-back-rerun")
+				continue
+			}
 			rc.Fail("C07.queue-overlap", "a task that had to come through the queue was started while another such task was still running within the execution-wait limit (runs with schedule entries)",
 				fmt.Sprintf("task %d began at %v and was still running when task %d began at %v; neither had a maximum delay that could have expired", a.Task, a.BeginT, b.Task, b.BeginT))
 			return
